@@ -14,7 +14,7 @@
 From Coq Require Import Ascii String List Bool Arith ZArith NArith.
 From PTBase Require Import Exn PyStr PyNum PyVal Fmt FixedFormat.
 From Gen Require Import GenTables GenNames GenPad GenRead.
-From P Require Import Digits SciTrip Num RealIdem Names InconIO Wf Lines Blocks RoundTrip Idem Bridge Fields Fits Stable Current.
+From P Require Import Digits SciTrip Num RealIdem Names InconIO Wf Lines Blocks RoundTrip Idem Bridge Fields Fits Stable Current Shape.
 Import ListNotations.
 
 (** finite obligation over the regenerated table: all seven record kinds present, field
@@ -243,3 +243,48 @@ Theorem read_into_used_object_refuted : read_resets_flavour = false ->
                        sim j = TOUGH2 /\ sim u = TOUGHREACT /\ timing_kcyc j = Some 11100%Z /\ timing_kcyc u = Some 111004%Z.
 Proof. exact Current.read_into_used_object_refuted. Qed.
 Print Assumptions read_into_used_object_refuted.
+
+(** shape of the written file and what the file does not depend on -- for every object, no hypothesis on
+    the values.  A write that resets never looks at the timing of the object; it is the write (either flag)
+    of the object without timing; without timing the flag is irrelevant *)
+Theorem incon_reset_write_ignores_timing : forall i t, write true (with_timing i t) = write true i.
+Proof. exact reset_write_ignores_timing. Qed.
+Print Assumptions incon_reset_write_ignores_timing.
+Theorem incon_reset_write_is_write_without_timing : forall r i, write true i = write r (with_timing i None).
+Proof. exact reset_write_is_write_without_timing. Qed.
+Print Assumptions incon_reset_write_is_write_without_timing.
+Theorem incon_write_flag_irrelevant_without_timing : forall r1 r2 i, timing_ i = None -> write r1 i = write r2 i.
+Proof. exact no_timing_flag_irrelevant. Qed.
+Print Assumptions incon_write_flag_irrelevant_without_timing.
+(** the reader skips the first line whatever it holds (fresh object, or read into a used one) *)
+Theorem incon_read_skips_header_line : forall nv check h1 h2 r, read nv check (h1 :: r) = read nv check (h2 :: r).
+Proof. exact read_skips_header. Qed.
+Print Assumptions incon_read_skips_header_line.
+Theorem incon_read_used_skips_header_line : forall old nv check h1 h2 r,
+  read_used old nv check (h1 :: r) = read_used old nv check (h2 :: r).
+Proof. exact read_used_skips_header. Qed.
+Print Assumptions incon_read_used_skips_header_line.
+(** the file has one header line, per block one record line and ceil(n/4) lines for its n variables, two tail
+    lines ('+++' and timing, or two blank lines) -- any layouts, then the current ones *)
+Theorem incon_file_line_count_any_layouts : forall L reset i ls, write_L L reset i = Ok ls ->
+  length ls = (1 + block_lines (blocks i) + 2)%nat.
+Proof. exact write_length_L. Qed.
+Print Assumptions incon_file_line_count_any_layouts.
+Theorem incon_file_line_count : forall reset i ls, write reset i = Ok ls -> length ls = (1 + block_lines (blocks i) + 2)%nat.
+Proof. exact write_length. Qed.
+Print Assumptions incon_file_line_count.
+(** 1..4 / 5..8 / 9..12 variables take 1 / 2 / 3 lines, none takes none; in general the least k with n <= 4k *)
+Theorem incon_variable_lines : forall n, ((n = 0 -> lines_for n = 0) /\ (1 <= n <= 4 -> lines_for n = 1) /\
+  (5 <= n <= 8 -> lines_for n = 2) /\ (9 <= n <= 12 -> lines_for n = 3) /\ 4 * lines_for n < n + 4 /\ n <= 4 * lines_for n)%nat.
+Proof. exact lines_for_bounds. Qed.
+Print Assumptions incon_variable_lines.
+(** the two flags give files that agree on every block line: only the header and the two tail lines can differ *)
+Theorem incon_write_flag_changes_header_and_tail_only : forall i ls1 ls2, write true i = Ok ls1 -> write false i = Ok ls2 ->
+  firstn (block_lines (blocks i)) (skipn 1 ls1) = firstn (block_lines (blocks i)) (skipn 1 ls2).
+Proof. exact write_flag_changes_header_and_tail_only. Qed.
+Print Assumptions incon_write_flag_changes_header_and_tail_only.
+Theorem hypotheses_satisfiable_shape :
+  exists ls1 ls2, write true ex_tr = Ok ls1 /\ write false ex_tr = Ok ls2 /\ block_lines (blocks ex_tr) = 6%nat /\
+                  length ls1 = 9%nat /\ length ls2 = 9%nat /\ lines_eqb ls1 ls2 = false.
+Proof. exact shape_hypotheses_met. Qed.
+Print Assumptions hypotheses_satisfiable_shape.
